@@ -119,7 +119,7 @@ const KINDS: &[&str] = &[
 const CFGS: &[&str] = &["auto", "none", "utf-8", "utf-16le", "utf-16be", "latin1", "shift_jis"];
 
 fn gen_case(rng: &mut Rng, level: &str, big: bool) -> String {
-    let kind = *rng.pick(KINDS);
+    let kind = *rng.pick(&KINDS[..KINDS.len() - 1]); // `sjis-all` (100 KB) only from the corpus
     // mostly the matching configuration, sometimes any (a mark must win over a wrong label)
     let cfg = if rng.chance(1, 3) {
         *rng.pick(CFGS)
